@@ -54,8 +54,8 @@ type Mark struct {
 
 // Journal is a parsed journal.
 type Journal struct {
-	Events []Event
-	Root   string // only paths under Root (a directory) are modelled
+	Events   []Event
+	Root     string // only paths under Root (a directory) are modelled
 	MarkFile string
 }
 
@@ -258,20 +258,20 @@ func decodeHexPath(s string) string {
 // File-system model
 
 type inode struct {
-	cur       []byte
-	dur       []byte // content at last sync (nil + !everSynced => never synced)
-	dirty     bool   // modified since last sync
-	low       int    // lowest modified offset since last sync (valid if dirty)
-	isDir     bool
-	nlink     int
+	cur   []byte
+	dur   []byte // content at last sync (nil + !everSynced => never synced)
+	dirty bool   // modified since last sync
+	low   int    // lowest modified offset since last sync (valid if dirty)
+	isDir bool
+	nlink int
 }
 
 type openFile struct {
-	ino    *inode
-	pos    int64
+	ino        *inode
+	pos        int64
 	appendMode bool
-	path   string
-	tracked bool
+	path       string
+	tracked    bool
 }
 
 // FS is the incremental model.
@@ -685,11 +685,11 @@ func (fs *FS) Step(i int, ev Event) StepInfo {
 
 // FileState describes one modelled regular file at the current position.
 type FileState struct {
-	Path    string // relative to Root
-	Cur     []byte
-	Dur     []byte
-	Dirty   bool
-	Low     int
+	Path  string // relative to Root
+	Cur   []byte
+	Dur   []byte
+	Dirty bool
+	Low   int
 }
 
 // Files returns the regular files currently present, sorted by path.
